@@ -476,7 +476,7 @@ fn term(sc: &Scenario, fast: bool, decs: &[u64], tab: &[(u32, u32, u32)]) -> Str
 	t.dedup();
 	let mut evs = vec![];
 	for (k, cb) in sc.cbs.iter().enumerate() {
-		evs.push(format!("RDec {}", decs[k]));
+		evs.push(format!("RDec {}", decs.get(k).copied().unwrap_or(0)));
 		evs.push(format!("RStart {}", cmds_term(&cb.cmds)));
 		for len in &cb.lens {
 			evs.push(format!(
@@ -950,7 +950,13 @@ fn sprinkle_empties(r: &mut Rng, packets: &[usize], interest: &[usize]) -> Vec<u
 }
 fn gen_rate_value(r: &mut Rng, big: bool) -> f64 {
 	match r.below(12) {
-		0 => 0.0,
+		0 => {
+			if r.chance(1, 3) {
+				-0.0 // a non-negative rate: stands still, forwards
+			} else {
+				0.0
+			}
+		}
 		1 => 0.25,
 		2 => 0.5,
 		3 | 4 => 1.0,
@@ -1079,12 +1085,18 @@ fn gen_scenario(r: &mut Rng, model: bool, lead: Lead) -> Scenario {
 	let slice = if r.chance(1, 4) {
 		let a = r.below(n as u64 + 1) as usize;
 		let b = r.range(a as i64, n as i64) as usize;
-		Some((a, b))
+		match r.below(8) {
+			// reaching beyond the audio, inverted, starting beyond it: clipped to the audio by both sounds
+			0 => Some((a, n + r.below(5) as usize + 1)),
+			1 => Some((b, a)),
+			2 => Some((n + r.below(3) as usize, n + 4)),
+			_ => Some((a, b)),
+		}
 	} else {
 		None
 	};
 	let nf = match slice {
-		Some((a, b)) => b - a,
+		Some((a, b)) => b.min(n).saturating_sub(a),
 		None => n,
 	};
 	let start = match r.below(6) {
@@ -1303,29 +1315,6 @@ fn manager_pair(s: &mut Session, ids: &Ids, r: &mut Rng) {
 	}
 }
 
-/// classes listed for C09 with status "known" in /verif/known_findings.json (entries are flat objects)
-fn known_classes() -> Vec<String> {
-	let mut out = vec![];
-	let Ok(text) = std::fs::read_to_string("/verif/known_findings.json") else { return out };
-	for obj in text.split('{').skip(2) {
-		let obj = obj.split('}').next().unwrap_or("");
-		let field = |name: &str| -> Option<String> {
-			let k = format!("\"{name}\"");
-			let i = obj.find(&k)?;
-			let rest = &obj[i + k.len()..];
-			let a = rest.find('"')?;
-			let b = rest[a + 1..].find('"')?;
-			Some(rest[a + 1..a + 1 + b].to_string())
-		};
-		if field("property").as_deref() == Some("C09") && field("status").as_deref() == Some("known") {
-			if let Some(c) = field("class") {
-				out.push(c);
-			}
-		}
-	}
-	out
-}
-
 /// the `*_refuted` witnesses of C09/Props.v on the implementation: each lies outside one clause of the guard, the
 /// model says the two sounds differ there; the case goes to the model comparison, and whether the implementation
 /// diverges as well is recorded
@@ -1357,13 +1346,29 @@ fn witnesses(s: &mut Session, ids: &Ids) {
 		("starved", base(1.5, None, 0, Lead::Script, vec![Cb { grant: 3, ..plain(4) }, Cb { grant: 20, ..plain(4) }])),
 		// the gap rule itself: one entry in the ring (not the seed), data not at its end, fraction 0.5: a silent chunk
 		("gap_one_entry", base(0.5, None, 0, Lead::Script, vec![Cb { grant: 3, ..plain(7) }, Cb { grant: 0, ..plain(2) }, Cb { grant: 9, ..plain(2) }])),
-		// a slice reaching beyond the audio
-		("slice_beyond_audio", base(1.5, Some((5, 11)), 0, Lead::Free, vec![plain(4), plain(4)])),
 		// a negative rate
 		("negative_rate", base(-1.0, None, 4, Lead::Free, vec![plain(4)])),
-		// rate -0.0, then set_playback_rate(1.0)
-		("negative_zero_rate", base(-0.0, None, 2, Lead::Free, vec![set_rate_one, plain(3)])),
 	];
+	// REGRESSION cases of the repaired findings F46 / F47, inside the guard now (monitors on, plain failures):
+	// slices reaching beyond the audio, inverted, starting beyond it, empty; a rate of -0.0 followed by set_playback_rate(1.0)
+	for (k, slice) in [(5usize, 11usize), (6, 2), (9, 20), (3, 3), (0, 100), (7, 8)].into_iter().enumerate() {
+		for lead in [Lead::Free, Lead::Tight] {
+			let mut sc = base(1.5, Some(slice), 0, lead, vec![plain(4), plain(4)]);
+			sc.outside = false;
+			let tr = submit(s, ids, &format!("regression_F46_slice_{k}"), &sc, true);
+			if slice == (5, 11) && !tr.st.calls.first().map(|c| c.1.iter().map(|f| f.left).collect::<Vec<_>>() == vec![6.0, 8.0625, 0.0, 0.0]).unwrap_or(false) {
+				s.fail(describe(&sc), "regression F46: the slice (5, 11) of 8 frames is not heard as [6.0, 8.0625, 0, 0]".into(), None);
+			}
+		}
+	}
+	for start in [2usize, 0, 5] {
+		let mut sc = base(-0.0, None, start, Lead::Free, vec![set_rate_one.clone(), plain(3)]);
+		sc.outside = false;
+		let tr = submit(s, ids, "regression_F47_negative_zero_rate", &sc, true);
+		if start == 2 && !tr.st.calls.first().map(|c| c.1.iter().map(|f| f.left).collect::<Vec<_>>() == vec![3.0, 3.4814816, 4.0]).unwrap_or(false) {
+			s.fail(describe(&sc), "regression F47: rate -0.0 then 1.0 from frame 2 is not heard as [3.0, 3.4814816, 4.0] (forwards)".into(), None);
+		}
+	}
 	// inside the guard: empty packets at the start, in runs, where the first seek lands, at the loop wrap, at the end
 	for (k, (packets, gran, start, lp)) in [
 		(vec![0usize, 0, 1, 0, 2, 0, 0, 0, 3, 0, 2, 0], 2usize, 1usize, Some((2usize, 6usize))),
@@ -1383,27 +1388,12 @@ fn witnesses(s: &mut Session, ids: &Ids) {
 			submit(s, ids, &format!("empty_packets_{k}"), &sc, true);
 		}
 	}
-	let known = known_classes();
 	for (name, sc) in list {
 		let tr = submit(s, ids, &format!("witness_{name}"), &sc, true);
 		let differ = tr.st.calls.iter().zip(tr.sm.calls.iter()).any(|(a, b)| {
 			a.2 != b.2 || a.1.iter().zip(b.1.iter()).any(|(x, y)| obs32(x.left) != obs32(y.left) || obs32(x.right) != obs32(y.right))
 		});
 		s.count(&format!("witness_{name}_{}", if differ { "diverges" } else { "does_not_diverge" }));
-		// two of the witnesses are candidate findings (inputs one may call inside the property's quantifier): reported as
-		// monitor failures of their class once that class is listed as known, as notes until then
-		let class = match name {
-			"slice_beyond_audio" => Some("streaming_slice_beyond_audio"),
-			"negative_zero_rate" => Some("rate_negative_zero_plays_backwards"),
-			_ => None,
-		};
-		if let (true, Some(c)) = (differ, class) {
-			if known.iter().any(|k| k == c) {
-				s.fail(describe(&sc), format!("{name}: the static and the streaming sound differ (class {c})"), Some(c));
-			} else {
-				s.notes.push(format!("FINDING-CANDIDATE class={c}: reproduced on the implementation (not listed in known_findings.json, so not raised)"));
-			}
-		}
 		if differ {
 			let k = tr.st.calls.iter().zip(tr.sm.calls.iter()).position(|(a, b)| a.1.iter().zip(b.1.iter()).any(|(x, y)| obs32(x.left) != obs32(y.left))).unwrap_or(0);
 			s.notes.push(format!(
@@ -1418,6 +1408,9 @@ fn witnesses(s: &mut Session, ids: &Ids) {
 pub fn run(args: &Args) {
 	let mut rng = Rng::new(args.seed ^ 0xC09);
 	install_hook();
+	if std::env::var("C09_DEBUG").is_ok() {
+		std::panic::set_hook(Box::new(|info| eprintln!("C09 panic: {info}")));
+	}
 	let mul = args.budget_mul;
 	let n_model: u64 = (if args.thorough { 6_000 } else { 500 }) * mul;
 	let n_paced: u64 = (if args.thorough { 2_400 } else { 200 }) * mul;
